@@ -455,7 +455,7 @@ def make_item(p, a, r, gen_children=None):
     if k == "projection":
         if r.random() < 0.2:
             return Item("projection", key, shape="projection:auto", toks=[Tok("word", "AUTO")], value=["AUTO"])
-        if r.random() < 0.06:
+        if r.random() < 0.12:
             return Item("projection", key, shape="projection:0", toks=[], value=[])  # PROJECTION END: the grammar takes string*
         strs = r.choice([["init=epsg:4326"], ["init=epsg:3857"], ["proj=utm", "zone=15", "datum=NAD83", "units=m", "no_defs"],
                          ["proj=longlat", "ellps=WGS84"],
